@@ -666,13 +666,17 @@ func (g Gateway) GetByIndexStream(in *hydrapb.GetByIndexStreamRequest, stream hy
 	var treasures []treasure.Treasure
 	var residualFilters *hydrapb.FilterGroup
 
-	if plan.Mode != PlanModeBypass && bucketExecPreconditions(beaconType) {
+	// From/Limit page through the ordered index before any filter is applied
+	// (MaxResults is the post-filter limit). The candidate list is already
+	// filtered by the indexed leg, so paging it would return a different page:
+	// paged requests take the beacon walk.
+	if plan.Mode != PlanModeBypass && bucketExecPreconditions(beaconType) && in.GetFrom() == 0 && in.GetLimit() == 0 {
 		// Bucket-routed: pull candidates from the auto-built index,
 		// then apply time-range, sort, paging, residual predicate.
 		candidates := collectBucketCandidates(swampInterface, plan.Hints)
 		candidates = applyTimeRange(candidates, beaconType, fromTime, toTime)
 		sortCandidates(candidates, beaconType, order)
-		treasures = applyFromLimit(candidates, in.GetFrom(), in.GetLimit())
+		treasures = candidates
 		// The candidates only narrow the walk: the complete filter (not
 		// plan.Residual) is evaluated on each of them, so the indexed leg's
 		// label is reported and a record matches on this route exactly when
@@ -809,11 +813,12 @@ func (g Gateway) GetByIndexStreamFromMany(in *hydrapb.GetByIndexStreamFromManyRe
 			var treasures []treasure.Treasure
 			var residualFilters *hydrapb.FilterGroup
 
-			if plan.Mode != PlanModeBypass && bucketExecPreconditions(beaconType) {
+			// paged requests take the beacon walk, as in GetByIndexStream
+			if plan.Mode != PlanModeBypass && bucketExecPreconditions(beaconType) && query.GetFrom() == 0 && query.GetLimit() == 0 {
 				candidates := collectBucketCandidates(swampInterface, plan.Hints)
 				candidates = applyTimeRange(candidates, beaconType, fromTime, toTime)
 				sortCandidates(candidates, beaconType, order)
-				treasures = applyFromLimit(candidates, query.GetFrom(), query.GetLimit())
+				treasures = candidates
 				// complete filter on the candidates, as in GetByIndexStream
 				residualFilters = filters
 			} else {
